@@ -198,7 +198,7 @@ def is_known(signature) -> bool:
 # ----------------------------------------------------------------------------------------------
 # Hypothesis driver (collect, then shrink per new signature)
 # ----------------------------------------------------------------------------------------------
-def hyp_run(strategy, run_case, *, n, seed, kind=None, shrink_budget_s=25.0, part=None, stateful_ok=False):
+def hyp_run(strategy, run_case, *, n, seed, kind=None, shrink_budget_s=8.0, part=None, stateful_ok=False, max_shrinks=6):
     """Generate n cases from `strategy`, run each with run_case(case)->Outcome, never stop at the
     first failure.  Afterwards shrink one example per not-yet-known signature."""
     import hypothesis
@@ -235,9 +235,13 @@ def hyp_run(strategy, run_case, *, n, seed, kind=None, shrink_budget_s=25.0, par
         return part
 
     # shrink new signatures only (known findings need no replay file)
+    shrunk = 0
     for sig, case0 in first_fail.items():
         if is_known(sig):
             continue
+        shrunk += 1
+        if shrunk > max_shrinks:
+            break
         best = [case0, len(jdump(case0))]
         deadline = time.monotonic() + shrink_budget_s
 
